@@ -24,6 +24,8 @@ val mul : int -> int -> int
 
 val sub : int -> int -> int
 
+val eqb : bool -> bool -> bool
+
 module Nat :
  sig
   val sub : int -> int -> int
@@ -312,6 +314,8 @@ val store : scalar -> buf -> int -> int -> vec -> buf
 val store1 : scalar -> buf -> int -> t -> buf
 
 val sum_from : scalar -> int -> int -> (int -> t) -> t -> t
+
+val sum_n : scalar -> (int -> t) -> int -> t
 
 val dot_fma : scalar -> int -> int -> (int -> t) -> (int -> t) -> t -> t
 
@@ -777,6 +781,52 @@ val mask_store_fb : int -> z -> z list -> (int -> z) -> int -> z
 
 val mask_load_fb : int -> z -> (int -> z) -> z list
 
+val sa_step :
+  ('a1 -> 'a1 -> bool) -> ('a1 -> ('a1 -> 'a2) -> 'a2) -> ('a1 -> 'a2) -> 'a1
+  -> 'a1 -> 'a2
+
+val sa_run :
+  ('a1 -> 'a1 -> bool) -> ('a1 -> ('a1 -> 'a2) -> 'a2) -> 'a1 list -> ('a1 ->
+  'a2) -> 'a1 -> 'a2
+
+type mat = int -> int -> t
+
+type vec0 = int -> t
+
+val fsub_g : scalar -> mat -> vec0 -> int -> vec0 -> t
+
+val fsub : scalar -> int -> mat -> vec0 -> vec0
+
+val bsub_g : scalar -> int -> mat -> vec0 -> int -> vec0 -> t
+
+val bsub : scalar -> int -> mat -> vec0 -> vec0
+
+type key = bool * (int * int)
+
+val key_eqb : key -> key -> bool
+
+val lk : int -> int -> key
+
+val uk : int -> int -> key
+
+val lu_g : scalar -> mat -> key -> (key -> t) -> t
+
+val unrank : int -> int -> key
+
+val valid : key -> bool
+
+val lu_order : int -> key list
+
+val doolittle : scalar -> int -> mat -> key -> t
+
+val lu_L : scalar -> int -> mat -> mat
+
+val lu_U : scalar -> int -> mat -> mat
+
+val lu_solve : scalar -> int -> mat -> vec0 -> vec0
+
+val lu_inverse : scalar -> int -> mat -> mat
+
 val run_matmul_Z :
   cfg -> ety -> int -> int -> int -> z list -> z list -> z list
 
@@ -860,3 +910,13 @@ val run_simd_sse2 : int -> z list -> z list -> z list
 val run_mask_store : int -> z -> z list -> z list -> z list
 
 val run_mask_load : int -> z -> z list -> z list
+
+val mat_of : int -> z list -> int -> int -> z
+
+val list_of : int -> int -> (int -> int -> z) -> z list
+
+val run_lu : int -> z list -> z list * z list
+
+val run_lu_inverse : int -> z list -> z list
+
+val run_lu_solve : int -> int -> z list -> z list -> z list
